@@ -117,3 +117,19 @@ package header
 //@   callpre ValidatorSet).ToProto: $arg0 == in.ValidatorSet
 //@   callpre DataAvailabilityHeader).ToProto: $arg0 == in.DAH
 //@   callpre ExtendedHeader).Marshal: $arg0 == out
+
+// Decoding in place: the receiver becomes the header that was decoded - all four parts of it, whatever
+// the receiver held before (a reused receiver is no different from a fresh one).
+// (call-site view of UnmarshalExtendedHeader: an error, or a header whose four parts are functions of the
+// bytes - decRaw/decCommit/decVals/decDAH name them; body view above)
+//@ pure func decRaw(data []byte) core.Header
+//@ pure func decCommit(data []byte) *core.Commit
+//@ pure func decVals(data []byte) *core.ValidatorSet
+//@ pure func decDAH(data []byte) *da.DataAvailabilityHeader
+//@ extern github.com/celestiaorg/celestia-node/header.UnmarshalExtendedHeader
+//@   ensures err == nil ==> result0 != nil && result0.RawHeader == decRaw(data) && result0.Commit == decCommit(data) && result0.ValidatorSet == decVals(data) && result0.DAH == decDAH(data)
+//@ func (*ExtendedHeader).UnmarshalBinary
+//@   property C16
+//@   modifies eh
+//@   callpre header.UnmarshalExtendedHeader: $arg0 == data
+//@   ensures err == nil ==> eh != nil && eh.RawHeader == decRaw(data) && eh.Commit == decCommit(data) && eh.ValidatorSet == decVals(data) && eh.DAH == decDAH(data)
